@@ -564,6 +564,32 @@ def check_clip(ctx, repo, rule):
     ctx.need(n >= 1, 'maskpoints: clamped store not found')
 
 
+def check_coeff_agree(ctx, repo, rule):
+    """fit() stores coefficients through the boolean mask self.mask[self.nord:]; value() must read them through the same selection."""
+    f = repo.func(BSPLINE, 'bspline.fit')
+    v = repo.func(BSPLINE, 'bspline.value')
+    fa, va = FA(f), FA(v)
+    wsel = set()
+    for st in walk_local(f.node):
+        if isinstance(st, ast.Assign) and isinstance(st.targets[0], ast.Subscript) and src(st.targets[0].value) == 'self.coeff':
+            sl = st.targets[0].slice
+            nm = sl.elts[-1] if isinstance(sl, ast.Tuple) else sl
+            d = fa.deep(nm)
+            wsel.add(src(d).replace(' ', ''))
+    rsel = set()
+    for n in walk_local(v.node):
+        if isinstance(n, ast.Subscript) and src(n.value) == 'self.coeff' and isinstance(n.ctx, ast.Load):
+            sl = n.slice
+            nm = sl.elts[-1] if isinstance(sl, ast.Tuple) else sl
+            d = va.deep(nm)
+            rsel.add(src(d).replace(' ', ''))
+    norm = lambda s: s.replace('.nonzero()[0]', '')
+    ok = bool(wsel) and bool(rsel) and {norm(x) for x in wsel} == {norm(x) for x in rsel} == {'self.mask[self.nord:]'}
+    ctx.check(rule, ok, v, v.node, 'coefficients are written (fit) and read (value) through the same selection self.mask[self.nord:]',
+              msg='fit() stores coefficients through %s but value() reads them through %s: after a breakpoint has been masked the evaluation uses '
+                  'coefficients from the wrong slots' % (sorted(wsel), sorted(rsel)), construct='coefficient selection write %s read %s' % (sorted(wsel), sorted(rsel)))
+
+
 def check_chol_nomut(ctx, repo, rule):
     for q in ('cholesky_band', 'cholesky_solve'):
         f = repo.func(BSPLINE, q)
